@@ -75,6 +75,10 @@ func (s *kState) FindView(h uint64, r uint32, reason string) (*tmconsensus.Versi
 		if r < cr {
 			return nil, 0, ViewBeforeCommitting
 		}
+
+		// A later round of the height that is already being committed:
+		// the network decided that height in an earlier round.
+		return nil, 0, ViewWrongCommit
 	}
 
 	if h < s.Committing.Height {
